@@ -399,6 +399,31 @@ def run(ctx, chk):
         chk.require(got == sorted(map(tuple, want.values())) and out in seen_enums, "C15/reply-set", sname,
                     "the sequence parses %s with control fields %s; the specification lists %s for this command"
                     % (out, got, sorted(map(tuple, want.values()))), "reply set agrees", ent.get("sp"))
+    # ... and each reply is decoded with the packet type the specification table names for this command: two packet types
+    # share 06 1E (`Abort`, and `PartialReversalAbort` that also carries the pending receipt number) - an enum borrowed from a
+    # command with the same control fields but another packet type drops or invents fields of that reply
+    n_pl = 0
+    for sname, sp_ in sorted(seq_spec.items()):
+        if sname.startswith("_") or seqs.get(sname) is None:
+            continue
+        ent = seqs[sname]
+        adt = zvt.adts.get(ent["output"])
+        sp_e = spec.get(sp_["output"], {})
+        if adt is None or not sp_e.get("payloads") or not sp_e.get("variants"):
+            continue
+        want_by_cf = {tuple(cf): sp_e["payloads"].get(v) for v, cf in sp_e["variants"].items() if sp_e["payloads"].get(v)}
+        for v in adt["variants"]:
+            if len(v.get("fields", [])) != 1:
+                continue
+            pty = ty_str(v["fields"][0]["ty"])
+            cf = tuple(cmds.get(pty) or ())
+            if cf in want_by_cf:
+                n_pl += 1
+                chk.require(pty == want_by_cf[cf], "C15/reply-payload", "%s %02X %02X" % ((sname,) + cf),
+                            "the reply %02X %02X of this command is decoded as %s; the specification table says %s (the content of "
+                            "the variant is then not what the command's own reply carries)" % (cf + (pty, want_by_cf[cf])),
+                            "payload type agrees", ent.get("sp"))
+    chk.floor("reply payload types per command", n_pl, 60)
     for e in spec:
         if not e.startswith("_"):
             chk.require(e in seen_enums or e in served, "C15/present", e, "reply enum of the specification table has no parser", "",
